@@ -36,6 +36,7 @@ const (
 	c20kLen   // len(base)
 	c20kErr   // &T{...} of a package error type (tag = T) or a fresh error of fmt.Errorf/errors.New (tag = "new")
 	c20kTuple // vs
+	c20kFunc  // a function literal (lit); its free variables are read from the path's environment when it is called
 )
 
 type c20V struct {
@@ -56,6 +57,7 @@ type c20V struct {
 	fields map[string]c20V
 	vs     []c20V
 	why    string
+	lit    *ast.FuncLit
 }
 
 func c20Unknown(format string, args ...interface{}) c20V {
@@ -133,6 +135,8 @@ func (v c20V) String() string {
 		return "len(" + v.base.String() + ")"
 	case c20kErr:
 		return "&" + v.tag + "{...}"
+	case c20kFunc:
+		return "func literal"
 	case c20kTuple:
 		var s []string
 		for _, x := range v.vs {
@@ -163,6 +167,8 @@ func c20Same(a, b c20V) bool {
 		return a.id == b.id
 	case c20kRef:
 		return a.obj == b.obj
+	case c20kFunc:
+		return a.lit == b.lit
 	case c20kSel:
 		return a.name == b.name && c20Same(*a.base, *b.base)
 	case c20kIdx:
